@@ -299,19 +299,30 @@ func shapeFacts(repo string, fset *token.FileSet, files []*ast.File, info *types
 	o.Shape["isreadyUnconditionalNew"] = isreadyUnconditionalNew
 
 	// doGo drains the stop channel / resets the flag before spawning the search?
+	// Only an UNCONDITIONAL drain counts: a select with a receive from the stop channel and a default clause that is
+	// a top-level statement of doGo and precedes the top-level `go` statement (a drain nested in an `if`, or moved
+	// into the search thread, does not empty the channel on every path before the search is spawned).
 	goDrains := false
-	if d, ok := fd["doGo"]; ok {
-		ast.Inspect(d, func(n ast.Node) bool {
-			if s, ok := n.(*ast.SelectStmt); ok {
+	if d, ok := fd["doGo"]; ok && d.Body != nil {
+		for _, st := range d.Body.List {
+			if _, isGo := st.(*ast.GoStmt); isGo {
+				break
+			}
+			if s, ok := st.(*ast.SelectStmt); ok {
+				recv, def := false, false
 				for _, c := range s.Body.List {
 					cc := c.(*ast.CommClause)
-					if cc.Comm != nil && strings.Contains(exprString(cc.Comm), "<-") && strings.Contains(exprString(cc.Comm), "stop") {
-						goDrains = true
+					if cc.Comm == nil {
+						def = true
+					} else if strings.Contains(exprString(cc.Comm), "<-") && strings.Contains(exprString(cc.Comm), "stop") {
+						recv = true
 					}
 				}
+				if recv && def {
+					goDrains = true
+				}
 			}
-			return true
-		})
+		}
 	}
 	o.Shape["goDrainsStop"] = goDrains
 
